@@ -156,3 +156,85 @@ package op
 //@ func op.HTTPLoopbackOrLocalhost
 //@   modifies nothing
 //@   ensures parsed: result1 ==> result0 != nil
+
+// ---- C02: the provider's key sets and their wiring ----
+
+// The storage-backed key set answers only after FindMatchingKey selected a key usable for
+// signatures with the token's algorithm (kid rules: see oidc.FindMatchingKey) and go-jose
+// verified the signature with exactly that key.
+//@ func op.OpenIDKeySet.VerifySignature
+//@   requires valid(o) && jws != nil
+//@   ensures fail-closed: err != nil ==> result0 == nil
+//@   ensures selected: err == nil ==> callres("oidc.FindMatchingKey", 1) == nil
+//@   ensures usable-selected: err == nil ==> usableKey(callres("oidc.FindMatchingKey", 0), "sig", callres("oidc.GetKeyIDAndAlg", 1))
+//@   ensures with-selected-key: err == nil ==> joseVerified(jws, callres("oidc.FindMatchingKey", 0), bstr(result0))
+
+// The JWT-profile key set verifies with the key the storage files under (kid, client id).
+//@ func op.jwtProfileKeySet.VerifySignature
+//@   requires k != nil && jws != nil
+//@   ensures fail-closed: err != nil ==> payload == nil
+//@   ensures storage-key: err == nil ==> callres("op.JWTProfileKeyStorage.GetKeyByIDAndClientID", 1) == nil
+//@        && callres("op.JWTProfileKeyStorage.GetKeyByIDAndClientID", 0) != nil
+//@        && joseVerified(jws, *callres("op.JWTProfileKeyStorage.GetKeyByIDAndClientID", 0), bstr(payload))
+
+// Options store the key set they are given in the field they name, and nothing else.
+//@ func op.WithIDTokenHintKeySet$1
+//@   requires o != nil
+//@   modifies o.idTokenHinKeySet
+//@   ensures stored: o.idTokenHinKeySet == keySet && result == nil
+//@ func op.WithAccessTokenKeySet$1
+//@   requires o != nil
+//@   modifies o.accessTokenKeySet
+//@   ensures stored: o.accessTokenKeySet == keySet && result == nil
+
+// ---- C02 / C14: JWT assertions and request objects ----
+
+// clientKeysChecked(token, payload, storage, clientID): the signature of token was checked (see
+// oidc.CheckSignature: one signature, default algorithm allow-list, payload equality) against the
+// key set that asks `storage` for the key filed under (kid, clientID).
+//@ spec func clientKeysChecked(token string, payload string, storage JWTProfileKeyStorage, clientID string) bool =
+//@      exists ks *jwtProfileKeySet :: ks != nil && ks.storage == storage && ks.clientID == clientID && sigChecked(token, payload, ks, nil)
+
+//@ func op.SubjectIsIssuer
+//@   requires request != nil
+//@   modifies nothing
+//@   ensures iff: result == nil <==> request.Issuer == request.Subject
+
+//@ func op.VerifyJWTAssertion
+//@   requires v != nil
+//@   ensures clock: old(wallclock) <= wallclock
+//@   ensures fail-closed: err != nil ==> result0 == nil
+//@   ensures valid: err == nil ==> result0 != nil
+//@   ensures audience: err == nil ==> contains(result0.GetAudience(), v.Issuer)
+//@   ensures unexpired: err == nil ==> old(wallclock) + v.Offset < result0.GetExpiration()
+//@   ensures iat: err == nil ==> result0.GetIssuedAt() != ZEROTIME && result0.GetIssuedAt() <= wallclock + v.Offset + 500000000
+//@                            && (v.MaxAgeIAT != 0 ==> result0.GetIssuedAt() >= old(wallclock) - v.MaxAgeIAT - 500000000)
+//@   ensures subject-check: err == nil ==> callres("dyn:v.CheckSubject", 0) == nil
+//@   ensures signature-configured-set: err == nil && v.keySet != nil ==> sigChecked(assertion, jwtPayload(assertion), v.keySet, nil)
+//@   ensures signature-issuer-keys: err == nil && v.keySet == nil ==> clientKeysChecked(assertion, jwtPayload(assertion), v.Storage, result0.Issuer)
+
+// A request object counts only when it is signed with a key of the client it names as issuer, and
+// that issuer is the outer client_id; until then the auth request is left untouched.
+//@ func op.ParseRequestObject
+//@   requires authReq != nil && valid(storage)
+//@   ensures unchanged-on-error: result != nil ==> authReq.ClientID == old(authReq.ClientID) && authReq.Scopes == old(authReq.Scopes)
+//@        && authReq.RedirectURI == old(authReq.RedirectURI) && authReq.State == old(authReq.State) && authReq.Nonce == old(authReq.Nonce)
+//@        && authReq.ResponseType == old(authReq.ResponseType) && authReq.ResponseMode == old(authReq.ResponseMode)
+//@        && authReq.CodeChallenge == old(authReq.CodeChallenge) && authReq.CodeChallengeMethod == old(authReq.CodeChallengeMethod)
+//@        && authReq.LoginHint == old(authReq.LoginHint) && authReq.IDTokenHint == old(authReq.IDTokenHint) && authReq.RequestParam == old(authReq.RequestParam)
+//@   ensures parsed: result == nil ==> callres("oidc.ParseToken", 1) == nil
+//@   ensures signed-by-requesting-client: result == nil ==> clientKeysChecked(old(authReq.RequestParam), jwtPayload(old(authReq.RequestParam)), storage, old(authReq.ClientID))
+//@        || clientKeysChecked(old(authReq.RequestParam), jwtPayload(old(authReq.RequestParam)), storage, "")
+//@   ensures identity-kept: authReq.ClientID == old(authReq.ClientID) && authReq.ResponseType == old(authReq.ResponseType)
+//@   ensures consumed: result == nil ==> authReq.RequestParam == ""
+
+//@ func op.CopyRequestObjectToAuthRequest
+//@   requires authReq != nil && requestObject != nil
+//@   modifies *authReq
+//@   ensures identity-kept: authReq.ClientID == old(authReq.ClientID) && authReq.ResponseType == old(authReq.ResponseType)
+//@   ensures consumed: authReq.RequestParam == ""
+//@   ensures redirect: authReq.RedirectURI == ite(requestObject.RedirectURI != "", requestObject.RedirectURI, old(authReq.RedirectURI))
+//@   ensures state: authReq.State == ite(requestObject.State != "", requestObject.State, old(authReq.State))
+//@   ensures nonce: authReq.Nonce == ite(requestObject.Nonce != "", requestObject.Nonce, old(authReq.Nonce))
+//@   ensures challenge: authReq.CodeChallenge == ite(requestObject.CodeChallenge != "", requestObject.CodeChallenge, old(authReq.CodeChallenge))
+//@   ensures scopes: authReq.Scopes == ite(contains(old(authReq.Scopes), oidc.ScopeOpenID) && len(requestObject.Scopes) > 0, requestObject.Scopes, old(authReq.Scopes))
